@@ -201,6 +201,53 @@ impl<'tcx> Cx<'tcx> {
                 }
             }
         }
+        // fieldless enums, by value or behind one reference (promoted `&E::V` operands of derived PartialEq::eq):
+        // the value is the variant's name
+        {
+            let (ety, by_ref) = match ty.kind() {
+                ty::Ref(_, inner, _) => (*inner, true),
+                _ => (ty, false),
+            };
+            if let ty::Adt(def, _) = ety.kind() {
+                if def.is_enum() && !def.variants().is_empty() && def.variants().iter().all(|v| v.fields.is_empty()) {
+                    let mut bits: Option<(u128, u64)> = None;
+                    if by_ref {
+                        if let ConstValue::Scalar(rustc_middle::mir::interpret::Scalar::Ptr(ptr, _)) = val {
+                            if let Ok(layout) = tcx.layout_of(env.as_query_input(ety)) {
+                                let n = layout.size.bytes() as usize;
+                                let (prov, off) = ptr.prov_and_relative_offset();
+                                if let rustc_middle::mir::interpret::GlobalAlloc::Memory(a) =
+                                    tcx.global_alloc(prov.alloc_id())
+                                {
+                                    let a = a.inner();
+                                    let lo = off.bytes() as usize;
+                                    if n > 0 && n <= 16 && lo + n <= a.len() {
+                                        let b = a.inspect_with_uninit_and_ptr_outside_interpreter(lo..lo + n);
+                                        let mut v: u128 = 0;
+                                        for (i, x) in b.iter().enumerate() {
+                                            v |= (*x as u128) << (8 * i);
+                                        }
+                                        bits = Some((v, n as u64));
+                                    }
+                                }
+                            }
+                        }
+                    } else if let Some(si) = val.try_to_scalar_int() {
+                        let size = si.size();
+                        bits = Some((si.to_bits(size), size.bytes()));
+                    }
+                    if let Some((v, n)) = bits {
+                        let mask: u128 = if n >= 16 { u128::MAX } else { (1u128 << (8 * n)) - 1 };
+                        for (idx, discr) in def.discriminants(tcx) {
+                            if discr.val & mask == v & mask {
+                                return (js(&def.variant(idx).name.to_string()), named);
+                            }
+                        }
+                    }
+                    return ("null".into(), named);
+                }
+            }
+        }
         if ty.is_integral() || ty.is_bool() || ty.is_char() {
             if let Some(si) = val.try_to_scalar_int() {
                 let size = si.size();
